@@ -512,5 +512,5 @@ int mkdirat(int dirfd, const char *path, mode_t mode) {
 // Final image when the driver asks for it (after the last operation, database still open or dropped).
 void fjallfs_final_image(void) {
     init();
-    if (MODE == 2 && IMG[0]) event("final", ROOT, 0, 0, 0);
+    if (MODE) event("final", ROOT, 0, 0, 0); // numbered in every mode, so call numbers agree between modes
 }
